@@ -1764,7 +1764,7 @@ def solve_triangular(A, B, *, upper, left=True, unitriangular=False, out=None):
 
 
 @handles("lu")
-def lu(A, pivot=True, get_infos=False):
+def lu(A, pivot=True, get_infos=False, out=None, **kw):
     """Symbolic stand-in for torch.lu: returned as an opaque factorisation object carried to lu_solve;
     torch.diag(LU) is only ever used through sum(log|diag|) == log|det A| (validated differentially)."""
     M = _ew(lambda s: s.real(), arr(A))
